@@ -286,7 +286,7 @@ def main():
     allrows = json.load(open(jp)) if os.path.exists(jp) else {}
     for name, suite, res, note in rows:
         if suite == "not run" and name in allrows and allrows[name][0] != "not run":
-            suite = allrows[name][0] + " (earlier run)"
+            suite = allrows[name][0].replace(" (earlier run)", "") + " (earlier run)"
         allrows[name] = [suite, res, note]
     json.dump(allrows, open(jp, "w"), indent=1)
     order = [m["name"] for m in M]
